@@ -65,7 +65,14 @@ def generate(rng, i, tier):
             modes["unmatched-mode"] = "keep"
         if rng.random() < 0.1:
             modes["run-mode"] = "no-run"
+        transfer = rng.random() < 0.1
+        if transfer:
+            # after the run the member's data.csv is copied to transfers/<value of the variable>; when there is no
+            # data.csv (nothing collected, or a run form that does not collect) today's library raises out of the run
+            modes["transfer-mode"] = f"data > tv{j}"
         m = gen.gen_member(rng, hdr, len(rows), ident, modes=modes, zoo_p=0.3, zoo_pool=gen.ZOO_SAFE)
+        if transfer:
+            m["comps"].insert(0, f'@tv{j} = "out/m{j}.csv"')
         if rng.random() < 0.2:
             # in-place edits of the line (append/replace): in a breadth-first run later members see the edited line
             m["comps"].insert(rng.randint(0, len(m["comps"])), gen.zoo_comp(rng, hdr, 40 + j, gen.ZOO_REWRITE))
@@ -297,6 +304,11 @@ def execute(sc):
                     out.discard = True
                     out.log("discard", ops.exc_sig(e))
                     return out.done()
+                if ops.in_repo(e) and any("transfer-mode" in (m.get("modes") or {}) for m in sc["members"]) and type(e).__name__ in ("FileNotFoundError", "InputException"):
+                    # a transfer that cannot be made: the run did not return, so the statement is not engaged
+                    out.probe("transfer that could not be made (run raised)")
+                    out.log("transfer-raise", ops.exc_sig(e))
+                    break
                 raise
             out.runs += 1
             run_dir, kinds = check_run_archive(
@@ -318,6 +330,8 @@ def execute(sc):
         out.probe("member using a cross-path signal (fail_all/stop_all/skip_all/advance_all)", any("_all(" in c for m in sc["members"] for c in m["comps"]))
         out.probe("member that edits the line in place (append/replace)", any(c.startswith(("append(", "replace(")) for m in sc["members"] for c in m["comps"]))
         out.probe("archived member file larger than 64 KiB", any(len(c) > 65536 for r in sc["rows"] for c in r))
+        out.probe("transfer that could not be made (run raised)", False)
+        out.probe("member with transfer-mode", any("transfer-mode" in (m.get("modes") or {}) for m in sc["members"]))
         out.probe("member with run-mode: no-run", any((m.get("modes") or {}).get("run-mode") == "no-run" for m in sc["members"]))
         out.log("tree", _digest_tree(checked_dirs))
     return out.done()
